@@ -35,8 +35,8 @@ impl Property for OptProp {
     }
     fn cases(&self, tier: Tier) -> u64 {
         match tier {
-            Tier::Quick => 1_000_000,
-            Tier::Thorough => 15_000_000,
+            Tier::Quick => 3_000_000,
+            Tier::Thorough => 30_000_000,
         }
     }
     fn floors(&self, _tier: Tier) -> Vec<(&'static str, f64)> {
@@ -212,8 +212,8 @@ impl Property for AssumpProp {
     }
     fn cases(&self, tier: Tier) -> u64 {
         match tier {
-            Tier::Quick => 800_000,
-            Tier::Thorough => 12_000_000,
+            Tier::Quick => 2_400_000,
+            Tier::Thorough => 24_000_000,
         }
     }
     fn floors(&self, _tier: Tier) -> Vec<(&'static str, f64)> {
@@ -400,8 +400,8 @@ impl Property for BoundsProp {
     }
     fn cases(&self, tier: Tier) -> u64 {
         match tier {
-            Tier::Quick => 1_000_000,
-            Tier::Thorough => 15_000_000,
+            Tier::Quick => 3_000_000,
+            Tier::Thorough => 30_000_000,
         }
     }
     fn floors(&self, _tier: Tier) -> Vec<(&'static str, f64)> {
